@@ -246,6 +246,7 @@ def twr_run(focus, quick, thorough, props, variant='plain', engine='coop', name=
 TSAN_ENV = {'TSAN_OPTIONS': 'halt_on_error=0:exitcode=66:second_deadlock_stack=1:history_size=4'}
 CHECKS['C06'] = [twr_run('c06', 400, 40000, ['C06']), twr_run('c06', 8, 200, ['C06'], variant='tsan', engine='real', env=TSAN_ENV)]
 CHECKS['C14'].append(twr_run('c06', 300, 20000, ['C14']))
+CHECKS['C05'].append(twr_run('c06', 150, 10000, ['C05']))
 LEVELS['C06'] = 'exploration'
 RULES['C06'] = 'case = program (1-2 application threads, 10-120 calls mixing fsr of several signals/widths, annotation, utc, user data, omit, flush; message sizes chosen against a queue of 160 B - 64 KiB so that wrap, empty-reset, full and rejection occur; drop-on-overflow on/off) x schedule (policy random / PCT depth 0-3 / starve-consumer / starve-producer / round-robin, virtual-time jump probability 0 - 1). Controlled scheduler at every lock/unlock/wait/signal/sleep point of the real code; file must decode, equal the submission model applied in queue order and equal a literal synchronous-writer reference; lockset monitor on queue and writer state; queue regions checked at the real call sites. Plus real-thread runs under ThreadSanitizer with seeded delay injection. distinct = configuration x schedule signature'
 ASSUME['C06'] = ['schedules are produced at synchronisation/suspension-point granularity (seeded policies), not exhaustively; instruction-level interleavings only through ThreadSanitizer on real threads',
